@@ -44,6 +44,14 @@ class EqLA(Equation):
         d_av[d_idx] += s_m[s_idx]
 
 
+class EqLAO(Equation):
+    """loop_all only (no loop): its source block must still be generated"""
+    def loop_all(self, d_idx, d_aw, s_m, NBRS, N_NBRS):
+        i = declare('int')
+        for i in range(N_NBRS):
+            d_aw[d_idx] += s_m[NBRS[i]]
+
+
 class EqIP(Equation):
     def initialize_pair(self, d_idx, d_au, s_m):
         d_au[d_idx] = s_m[0]
@@ -88,4 +96,4 @@ class EqNS(Equation):
         d_p[d_idx] += 1.0
 
 
-FAMILY = [EqI, EqL, EqIL, EqILP, EqLA, EqIP, EqR, EqPY, EqC, EqNS]
+FAMILY = [EqI, EqL, EqIL, EqILP, EqLA, EqLAO, EqIP, EqR, EqPY, EqC, EqNS]
